@@ -735,7 +735,20 @@ fn finish(p: &dyn Property, tier: Tier, seed: u64, total: u64, agg: Agg, t0: Ins
             || fp.starts_with("panic:")
             || fp.starts_with("alloc:")
             || fp.starts_with("steps:");
-        let prop = if is_crash { meta.crash_prop } else { meta.id };
+        // "@Cnn:rest": a violation of another property observed by this check's workload
+        let (other, fp) = match fp.strip_prefix('@').and_then(|r| r.split_once(':')) {
+            Some((p, rest)) if p.len() == 3 && p.starts_with('C') => (Some(p.to_string()), rest.to_string()),
+            _ => (None, fp),
+        };
+        let other_s;
+        let prop = if let Some(o) = &other {
+            other_s = o.clone();
+            other_s.as_str()
+        } else if is_crash {
+            meta.crash_prop
+        } else {
+            meta.id
+        };
         let key = format!("{prop} {fp}");
         if let Some((_, _, what)) = known.iter().find(|(kp, kf, _)| kp == prop && *kf == fp) {
             let e = known_hits.entry(key.clone()).or_insert(0);
